@@ -611,6 +611,7 @@ class LiveRun:
         self.log = []
         self.quiescent_checks = 0
         self.in_main = False
+        self.custom_calls = []
 
     # ---- API shared with backtest monitors
     def state(self, mid, j):
@@ -855,6 +856,21 @@ class LiveRun:
                 self.fw.handler_queue.put(_F["events"].MarketBookEvent(books))
         except Exception:
             pass
+        # scenario-defined custom events (C13): a callback that may raise
+        self.n_mcm = getattr(self, "n_mcm", 0) + 1
+        for ce in self.scenario.get("custom_events") or ():
+            if ce.get("after_mcm") == self.n_mcm:
+                run = self
+
+                def cb(flumine, event, ce=ce):
+                    run.custom_calls.append(ce.get("id"))
+                    if ce.get("raise"):
+                        run.res.faults["callback_exception.custom_event"] += 1
+                        if ce.get("flumine"):
+                            raise _F["FlumineException"]("injected")
+                        raise ValueError("injected")
+
+                self.fw.handler_queue.put(_F["events"].CustomEvent(ce.get("id"), cb))
 
     def _exchange_event(self, ev):
         ids = self.exchange.order
@@ -1023,6 +1039,9 @@ class LiveRun:
                         self.note_harness("".join(traceback.format_exception(*ei)))
                     else:
                         self._record_crash(site, ei, "main loop")
+                        if "injected" in str(ei[1]):
+                            self.crash["owner"] = "C13"
+                            self.crash["where"] = "callback exception not contained"
                     break
                 if self.restart_requested and not self.finished:
                     self._abandon_tasks()
